@@ -225,9 +225,18 @@ Fixpoint bytes_states (st : Z * list Z) (ops : list eop) : list (Z * list Z) :=
 
 (* ---------------- the domain of the refinement theorems (computable, so that the checker can tell) ---------------- *)
 (* a raw key that is INSERTED must be the encoding of a key of the map's key type (the code writes the caller's bytes) *)
+(* [sk] = result of the bounds-checked walk over the raw key (skip_go), [ko] = the key it decodes to (key_of_step, as a
+   thunk: it is only decoded after the walk succeeded — key_of_step uses the decoder that trusts declared lengths);
+   a separate function of these RESULTS, so that no proof has to compute with skip_go on variables *)
+Definition raw_key_judge (sk : option (list Z)) (ko : unit -> option tval) (b : list Z) : bool :=
+  match sk with
+  | Some [] => match ko tt with Some kv => bytes_eqb (encode kv) b | None => false end
+  | _ => false
+  end.
+
 Definition raw_key_ok (s : pstep) (v : tval) : bool :=
   match s, v with
-  | PBinKey b, VMap kt _ _ => match key_of_step kt s with Some kv => bytes_eqb (encode kv) b | None => false end
+  | PBinKey b, VMap kt _ _ => raw_key_judge (skip_go kt b) (fun _ => key_of_step kt s) b
   | _, _ => true
   end.
 
